@@ -176,7 +176,7 @@ def helpers(np):
     def is_vector(x):
         return hasattr(x, '_data') and hasattr(x, 'asarray')
     import math as _math
-    return dict(log_=np.log, exp_=np.exp, tanh_=np.tanh, le=le, floor_=_math.floor, approx_h=None, exceeds=exceeds, below=below, INF_BOUND=1.0e30, same_fp=same_fp, same_fp_bool=same_fp_bool, approx=approx, is_scalar=is_scalar, is_vector=is_vector, is_view=is_view, iff=iff, is_none=is_none, same_object=same_object, is_nan=is_nan, is_inf=is_inf,
+    return dict(is_integral=lambda v: bool(np.isfinite(v)) and float(v) == int(v), log_=np.log, exp_=np.exp, tanh_=np.tanh, le=le, floor_=_math.floor, approx_h=None, exceeds=exceeds, below=below, INF_BOUND=1.0e30, same_fp=same_fp, same_fp_bool=same_fp_bool, approx=approx, is_scalar=is_scalar, is_vector=is_vector, is_view=is_view, iff=iff, is_none=is_none, same_object=same_object, is_nan=is_nan, is_inf=is_inf,
                 fp_finite=fp_finite, Sum=Sum, arr_eq=arr_eq, np=np)
 
 
